@@ -144,6 +144,44 @@ func init() {
 		"(encoding/binary.bigEndian).PutUint16": bePut(2),
 		"(encoding/binary.bigEndian).PutUint32": bePut(4),
 		"(encoding/binary.bigEndian).PutUint64": bePut(8),
+		"bytes.NewReader": func(fr *Frame, st *State, args []Value, sig *types.Signature) []Outcome {
+			s := args[0].(Slice)
+			c, err := st.sliceBytes(s)
+			if err != nil {
+				fail("bytes.NewReader: %v", err)
+			}
+			h := st.eng.alloc()
+			st.heap[h.String()] = Cell{V: Opaque{H: h}}
+			fr.gxSet(st, h, c)
+			return ret(st, Ptr{H: h})
+		},
+		// ReadInt16: io.ReadFull of two bytes from the underlying reader, big-endian, signed
+		"(*vimagination.zapto.org/byteio.BigEndianReader).ReadInt16": func(fr *Frame, st *State, args []Value, sig *types.Signature) []Outcome {
+			p := args[0].(Ptr)
+			rd := fr.load(st, p, nil).(Struct)
+			var rdr Value
+			for i := 0; i < rd.T.NumFields(); i++ {
+				if rd.T.Field(i).Name() == "Reader" {
+					rdr = st.fieldOf(rd, i)
+				}
+			}
+			iv, ok := rdr.(Iface)
+			if !ok || iv.Dyn == nil {
+				fail("BigEndianReader over an unknown reader")
+			}
+			h := iv.V.(Ptr).H
+			c := st.gxContent(h)
+			avail := StrLen(c)
+			okT := Le(Int(2), avail)
+			k := Ite(okT, Int(2), avail)
+			fr.gxSet(st, h, StrFrom(c, k))
+			val := Ite(okT, wrapInt(UN(2, Substr(c, Int(0), Int(2))), types.Typ[types.Int16]), Int(0))
+			eh := st.eng.freshHandle("readerr")
+			etid := UF("tid", SInt, eh)
+			st.assume(Le(Int(0), etid))
+			st.assume(Eq(Eq(etid, Int(0)), okT))
+			return ret(st, Scalar{val}, Scalar{k}, Iface{Tid: etid, Box: eh})
+		},
 		"errors.New":                   errCtor,
 		"fmt.Errorf":                   errCtor,
 		"github.com/pkg/errors.New":    errCtor,
